@@ -363,13 +363,13 @@ func (c *APICall) Run() (res APIResult) {
 		idx, neg := g.GetLowestPathInfo()
 		out = append(out, idx, neg)
 	case "MinkowskiSum64":
-		out = append(out, c2.MinkowskiSum64(first(c.A), first(c.B), c.Bo[0]))
+		out = append(out, c2.MinkowskiSum64(cap16(first(c.A)), cap16(first(c.B)), c.Bo[0]))
 	case "MinkowskiDiff64":
-		out = append(out, c2.MinkowskiDiff64(first(c.A), first(c.B), c.Bo[0]))
+		out = append(out, c2.MinkowskiDiff64(cap16(first(c.A)), cap16(first(c.B)), c.Bo[0]))
 	case "MinkowskiSumD":
-		out = append(out, c2.MinkowskiSumD(firstD(c.ad()), firstD(c.bd()), c.Bo[0], c.Prec))
+		out = append(out, c2.MinkowskiSumD(cap16D(firstD(c.ad())), cap16D(firstD(c.bd())), c.Bo[0], c.Prec))
 	case "MinkowskiDiffD":
-		out = append(out, c2.MinkowskiDiffD(firstD(c.ad()), firstD(c.bd()), c.Bo[0], c.Prec))
+		out = append(out, c2.MinkowskiDiffD(cap16D(firstD(c.ad())), cap16D(firstD(c.bd())), c.Bo[0], c.Prec))
 	case "RectClipPaths64":
 		out = append(out, c2.RectClipPaths64(c.Rect.rect(), c.A))
 	case "RectClipPath64":
@@ -539,4 +539,21 @@ func samePathsStrict(a, b Paths) bool {
 		}
 	}
 	return true
+}
+
+// cap16 bounds the operands of a Minkowski call: pattern x path parallelograms are united, and
+// 60 x 60 random points take close to a minute - longer than the watchdog of C03 allows.
+// (A resource-shaped precondition; the sub-slice shares the caller's buffer.)
+func cap16(p Path) Path {
+	if len(p) > 16 {
+		return p[:16]
+	}
+	return p
+}
+
+func cap16D(p c2.PathD) c2.PathD {
+	if len(p) > 16 {
+		return p[:16]
+	}
+	return p
 }
